@@ -463,8 +463,16 @@ func c16Case(r *mon.Run, idx int64) {
 	}
 	if ok && idx%5 == 0 && len(ps) >= 2 && !usesPackages {
 		keys := make([]*jen.Statement, len(ps))
+		// … and one more pair whose value is an empty placeholder (the pair renders nothing) that is given content
+		// after the first render: the pair must then appear
+		var placeholder *jen.Statement
 		mk := func(extend bool) (jen.Dict, *jen.Statement) {
 			d := jen.Dict{}
+			placeholder = jen.Null()
+			if extend {
+				placeholder.Id("phvq")
+			}
+			d[jen.Id("phkq")] = placeholder
 			var first *jen.Statement
 			for i, p := range ps {
 				k := jen.Add(p.mkKey())
@@ -485,13 +493,14 @@ func c16Case(r *mon.Run, idx int64) {
 			f1.Var().Id("X").Op("=").Id("M").Values(d1)
 			renderFile(f1)
 			k1.Dot("lateq")
+			placeholder.Id("phvq")
 			second, fail1 := renderFile(f1)
 			d2, _ := mk(true)
 			f2 := jen.NewFile("p")
 			f2.Var().Id("X").Op("=").Id("M").Values(d2)
 			want, fail2 := renderFile(f2)
 			if fail1 == "" && fail2 == "" && !bytes.Equal(second, want) {
-				r.Violate("dict-stale-key", c, "a key statement was extended (.lateq) after a first render; the second render with the same File differs from a fresh build\n%s\n--- second render ---\n%s\n--- fresh build ---\n%s", desc, second, want)
+				r.Violate("dict-stale-key", c, "a key statement was extended (.lateq) and an empty value placeholder was given content (phkq: phvq) after a first render; the second render with the same File differs from a fresh build\n%s\n--- second render ---\n%s\n--- fresh build ---\n%s", desc, second, want)
 			}
 			r.Count("two_phase_dicts", 1)
 		}
